@@ -146,6 +146,35 @@ def gen(repo):
                 rej_skel.append(st)
     io_close = [("handleIncomingData", io_calls), ("rejectSession", rej_skel)]
 
+    # ---- the upgrade hold (FC18f): every statement of handleIncomingData that mentions the hold or the Upgrade flag, in source
+    # order, and the statements of handleSessionClosed that erase per-session state.  Pinned by `gen_upgrade_hold`: the model's
+    # connDataU (hold branch at the head, `break` behind an Upgrade request, hold set where the rest is stored, released on
+    # refusal) and connClosedU were written from exactly this shape.
+    up_skel = []
+    for stmt in re.split(r"[;{}]", hid):
+        st = re.sub(r"\s+", " ", stmt).strip()
+        if st and re.search(r"\b(_upgradePending|haveUpgrade|pendingOverflow)\b|key == \"upgrade\"", st):
+            st = re.sub(r"\[this, sid, requestData(?:, \w+)*\]", "[this, sid, requestData, …]", st)
+            st = re.sub(r"processHttpRequest\(sid, requestData(?:, \w+)*\)", "processHttpRequest(sid, requestData, …)", st)
+            up_skel.append(st)
+    # the `break` that ends the request loop behind an Upgrade request must be the body of the LAST `if (haveUpgrade)`
+    last_up = [m_ for m_ in re.finditer(r"if\s*\(\s*haveUpgrade\s*\)\s*\{", hid)]
+    up_break = False
+    if last_up:
+        b0 = last_up[-1].end() - 1
+        body = hid[b0 + 1:cxxscan.match_brace(hid, b0)]
+        up_break = bool(re.fullmatch(r"\s*break\s*;\s*", body))
+    try:
+        hsc = cxxscan.function_body(s, "handleSessionClosed")
+    except Exception:
+        hsc = None
+    closed_skel = []
+    if hsc is not None:
+        for stmt in re.split(r"[;{}]", hsc):
+            st = re.sub(r"\s+", " ", stmt).strip()
+            if st and re.search(r"\.erase\(|onSessionClosed", st):
+                closed_skel.append(st)
+
     # ---- case folding of field names / transfer codings in handleIncomingData (FC15c): the model folds ASCII only
     folds = re.findall(r"std::transform\(\s*(\w+)\.begin\(\)\s*,\s*\1\.end\(\)\s*,\s*\1\.begin\(\)\s*,\s*([^)]+?)\s*\)", hid)
     if len(folds) < 2:
@@ -270,6 +299,11 @@ def gen(repo):
     t += "/-- the terminal closes of the I/O thread: close calls of `handleIncomingData` in source order, and the statements of\n"
     t += "`rejectSession` that touch the session map / close -/\n"
     t += "def serverIoClose : List (String × List String) := [%s]\n" % ", ".join('("%s", %s)' % (k, _lean_str_list(v)) for k, v in io_close)
+    t += "/-- the upgrade hold: statements of `handleIncomingData` that mention `_upgradePending` / `haveUpgrade` / `pendingOverflow`,\n"
+    t += "in source order; whether the last `if (haveUpgrade)` of the request loop is exactly `break;`; the erasures of `handleSessionClosed` -/\n"
+    t += "def serverUpgradeHold : List String := %s\n" % _lean_str_list(up_skel)
+    t += "def serverUpgradeBreak : Bool := %s\n" % ("true" if up_break else "false")
+    t += "def serverSessionClosed : List String := %s\n" % _lean_str_list(closed_skel)
     t += "/-- how `handleIncomingData` folds case in field names and transfer codings -/\ndef serverCaseFold : String := \"%s\"\n" % case_fold
     t += "/-- capacity of the worker pool's task queue (`tryEnqueue` refuses at `_tasks.size() >= _maxQueueSize`) -/\n"
     t += "def serverPoolQueueSize : Nat := %d\n" % pool_queue
